@@ -36,4 +36,11 @@ PROPS = {
         'explanation': 'accrual formula, settlement-before-balance-change, independence of other holders proved on the model; '
                        'the same statements are re-evaluated on every implementation step from Holder/State/AccruedRewards queries',
     },
+    'C18': {
+        'corpus': ['D4.ops'],
+        'families': [gen('token', 30, 120), gen('tokeninit', 30, 100), gen('mixed', 15, 120)],
+        'slice': [r'tok\..*', r'inst\.bsei', r'inst\.stsei', r'hub\.bond', r'hub\.bondst'],
+        'explanation': 'ledger invariant (sum of balances = supply) proved for every instantiate message and every message sequence of both token flavours; '
+                       'mint/burn authority and allowance bounds proved per message; histories by holders, spenders and the hub, all instantiate shapes incl. repeated addresses',
+    },
 }
